@@ -126,7 +126,7 @@ SUITES = {
         "thorough": [("km", ["cl_*", "dr_clone__*"])],
     },
     "C13": {
-        "quick": [("km", ["se_insert__s8_4a", "se_remove__s8_8g0", "se_remove__s8m0_4a", "se_take__s8_4one", "se_take__s8m0_4a", "se_get__s8_8g4",
+        "quick": [("km", ["se_insert__s8_4a", "se_insert__s8_4one", "se_insert__s8_8g4", "se_remove__s8_8g0", "se_remove__s8m0_4a", "se_take__s8_4one", "se_take__s8m0_4a", "se_get__s8_8g4",
                           "se_get_or_insert__u4f", "se_get_or_insert_with__s8_8g4", "se_retain__s8_8g0", "se_clear__s8_8g4", "se_clear__s8m0_4a", "se_extend1__s8_4a",
                           "se_iter__s8_8g4", "se_drain__s8_4a", "se_union__c_f", "se_union__a_e", "se_intersection__c_a", "se_intersection__a_c",
                           "se_difference__c_a", "se_difference__a_e", "se_symdiff__c_f", "se_ops__e_c", "se_preds__c_a"])],
@@ -158,6 +158,26 @@ SUITES = {
 }
 
 PROPS = sorted(SUITES)
+
+
+def seeded(prop, tier, suite, seed):
+    """VERIF_SEED != 0 adds two extra harnesses of the property's thorough tier to the quick tier,
+    chosen pseudo-randomly among those that took < 150 s in the last recorded thorough run
+    (vlib/seed_pool.json: {property: {config: {harness: seconds}}}); seed 0 = the fixed quick set."""
+    import json, os, random
+    if tier != "quick" or not seed:
+        return suite
+    pool_file = os.path.join(os.path.dirname(os.path.abspath(__file__)), "seed_pool.json")
+    if not os.path.exists(pool_file):
+        return suite
+    pool = json.load(open(pool_file)).get(prop, {})
+    have = set((c, h) for c, hs in suite for h in hs)
+    cands = sorted((c, h) for c, hs in pool.items() if c in CONFIGS for h, secs in hs.items() if secs < 150 and (c, h) not in have)
+    if not cands:
+        return suite
+    rnd = random.Random(1000 * seed + int(prop[1:]))
+    extra = rnd.sample(cands, min(2, len(cands)))
+    return list(suite) + [(c, [h]) for c, h in extra]
 
 # What each property's evidence says about itself (bounds and assumptions common to KM).
 KM_ASSUMPTIONS = [
